@@ -159,6 +159,7 @@ pub mod proofs {
 
     /// One send from any well-formed state behaves like a 5-bounded FIFO push.
     #[kani::proof]
+    #[kani::stub(core::hint::spin_loop, crate::common::spin_stub)]
     #[kani::unwind(7)]
     pub fn c06_seq_send_step() {
         let ch = any_state(2);
@@ -195,6 +196,7 @@ pub mod proofs {
 
     /// One recv from any well-formed state behaves like a FIFO pop.
     #[kani::proof]
+    #[kani::stub(core::hint::spin_loop, crate::common::spin_stub)]
     #[kani::unwind(7)]
     pub fn c06_seq_recv_step() {
         let ch = any_state(2);
@@ -313,28 +315,6 @@ pub mod proofs {
         assert!(false, "C08: a channel operation spins/yields waiting for another operation to make progress");
     }
 
-    fn nest_setup(inflight: usize, depth: u32, budget: u32, casf: u32) -> Channel<u8> {
-        let e: u16 = kani::any();
-        let f: u16 = kani::any();
-        let mut cells: [Option<u8>; SL] = kani::any();
-        kani::assume(valid(e, f, &cells, inflight));
-        // the queued values are the tags 1..=5 (slot number), so they are distinct
-        let mut i = 0;
-        while i < SL {
-            if contains(f, i as u16 + 1) {
-                cells[i] = Some(i as u8 + 1);
-            }
-            i += 1;
-        }
-        let ch = chan::from_raw(e, f, cells);
-        unsafe {
-            F0 = f;
-            vshim::HOOKS.interrupt = chan_interrupt;
-            vshim::HOOKS.stuck = stuck;
-        }
-        vshim::set_mode_nest(depth, budget, casf);
-        ch
-    }
 
     /// After the operation under test: drain sequentially and account for every tag.
     fn nest_finish(ch: &Channel<u8>, inflight: usize, own_ops_before: u32) {
@@ -412,34 +392,7 @@ pub mod proofs {
         assert!(!vshim::spin_stuck(), "C08: operation waits for another one");
     }
 
-    /// send() with up to 2 complete send/recv nested at any of its shim points
-    /// (one may itself be interrupted once), and up to 2 spurious CAS failures.
-    #[kani::proof]
-    #[kani::unwind(7)]
-    pub fn c08_nest_send() {
-        let ch = nest_setup(1, 1, 1, 1);
-        unsafe { CH = &ch };
-        let before = vshim::ops_at_depth(0);
-        do_send(&ch);
-        kani::cover!(vshim::interrupts_taken() == 1, "a nested operation ran");
-        kani::cover!(vshim::cas_fails() == 1, "a spurious CAS failure");
-        nest_finish(&ch, 1, before);
-        core::mem::forget(ch);
-    }
 
-    /// recv() likewise.
-    #[kani::proof]
-    #[kani::unwind(7)]
-    pub fn c08_nest_recv() {
-        let ch = nest_setup(1, 1, 1, 1);
-        unsafe { CH = &ch };
-        let before = vshim::ops_at_depth(0);
-        do_recv(&ch);
-        kani::cover!(vshim::interrupts_taken() == 1, "a nested operation ran");
-        kani::cover!(vshim::cas_fails() == 1, "a spurious CAS failure");
-        nest_finish(&ch, 1, before);
-        core::mem::forget(ch);
-    }
 
     /// Same scenario from a concrete pre-state: Channel::new() followed by `queued`
     /// sends (tags 1..=queued).  With the channel on the stack CBMC folds most of
@@ -505,6 +458,7 @@ pub mod proofs {
         core::mem::forget(ch);
     }
     #[kani::proof]
+    #[kani::stub(core::hint::spin_loop, crate::common::spin_stub)]
     #[kani::unwind(10)]
     pub fn c08_q_spurious_cas_failures() {
         spurious_only(2);
@@ -586,26 +540,31 @@ pub mod proofs {
         kani::cover!(nested_runs >= 1, "a nested operation ran right after a successful CAS");
     }
     #[kani::proof]
+    #[kani::stub(core::hint::spin_loop, crate::common::spin_stub)]
     #[kani::unwind(10)]
     pub fn c08_enum_send_in_send() {
         enumerate_points(2, true, 1);
     }
     #[kani::proof]
+    #[kani::stub(core::hint::spin_loop, crate::common::spin_stub)]
     #[kani::unwind(10)]
     pub fn c08_enum_send_in_recv() {
         enumerate_points(2, false, 1);
     }
     #[kani::proof]
+    #[kani::stub(core::hint::spin_loop, crate::common::spin_stub)]
     #[kani::unwind(10)]
     pub fn c08_enum_send_in_recv_full() {
         enumerate_points(5, false, 1);
     }
     #[kani::proof]
+    #[kani::stub(core::hint::spin_loop, crate::common::spin_stub)]
     #[kani::unwind(10)]
     pub fn c08_enum_send_in_send_last_slot() {
         enumerate_points(4, true, 1);
     }
     #[kani::proof]
+    #[kani::stub(core::hint::spin_loop, crate::common::spin_stub)]
     #[kani::unwind(10)]
     pub fn c08_enum_recv_in_recv() {
         enumerate_points(2, false, 2);
@@ -614,31 +573,37 @@ pub mod proofs {
 
     // outer operation / nested operation (a signal handler only ever sends)
     #[kani::proof]
+    #[kani::stub(core::hint::spin_loop, crate::common::spin_stub)]
     #[kani::unwind(10)]
     pub fn c08_q_send_in_send() {
         nest_concrete(2, true, 1);
     }
     #[kani::proof]
+    #[kani::stub(core::hint::spin_loop, crate::common::spin_stub)]
     #[kani::unwind(10)]
     pub fn c08_q_send_in_recv() {
         nest_concrete(2, false, 1);
     }
     #[kani::proof]
+    #[kani::stub(core::hint::spin_loop, crate::common::spin_stub)]
     #[kani::unwind(10)]
     pub fn c08_q_send_in_send_last_slot() {
         nest_concrete(4, true, 1);
     }
     #[kani::proof]
+    #[kani::stub(core::hint::spin_loop, crate::common::spin_stub)]
     #[kani::unwind(10)]
     pub fn c08_q_recv_in_recv() {
         nest_concrete(2, false, 2);
     }
     #[kani::proof]
+    #[kani::stub(core::hint::spin_loop, crate::common::spin_stub)]
     #[kani::unwind(10)]
     pub fn c08_q_recv_in_send_full() {
         nest_concrete(5, true, 2);
     }
     #[kani::proof]
+    #[kani::stub(core::hint::spin_loop, crate::common::spin_stub)]
     #[kani::unwind(10)]
     pub fn c08_q_send_in_recv_full() {
         nest_concrete(5, false, 1);
@@ -646,6 +611,7 @@ pub mod proofs {
 
     /// Channel::new() is an empty, well-formed channel.
     #[kani::proof]
+    #[kani::stub(core::hint::spin_loop, crate::common::spin_stub)]
     #[kani::unwind(7)]
     pub fn c06_new_is_empty() {
         let ch: Channel<u8> = Channel::new();
